@@ -335,7 +335,15 @@ func (a *appGenerator) makeCodegenApp() (GenApp, error) {
 	producesIndex := make(map[string][]string)
 	pristineDoc := a.SpecDoc.Pristine()
 
-	for operationName, opp := range a.Operations {
+	// planning an operation registers its package alias in the imports shared by all of them, where a
+	// later one finds it taken: plan in a stable order
+	operationNames := make([]string, 0, len(a.Operations))
+	for operationName := range a.Operations {
+		operationNames = append(operationNames, operationName)
+	}
+	sort.Strings(operationNames)
+	for _, operationName := range operationNames {
+		opp := a.Operations[operationName]
 		o := opp.Op
 		o.ID = operationName
 
